@@ -121,7 +121,7 @@ def lemma_no_consume_on_failure(model: Model, run: Run, prop: str) -> None:
             run.ob("L2-consumed-is-header-plus-content", okh, {"helper": hq.split(".")[-1], "terminal": term})
             if not okh:
                 run.fail(Finding("L2-consumed-is-header-plus-content", hq, whyh[:100], f"{hq.split('.')[-1]}: {whyh}", model.loc(model.functions[hq].module, model.functions[hq].node)))
-    run.floor("reader method / validating helper pairs", n_pairs, 6)
+    run.floor("reader method / validating helper pairs", n_pairs, 3)
 
 
 def helper_consumed_exact(model: Model, fi: FuncInfo, depth: int) -> Tuple[bool, str, str]:
@@ -251,6 +251,9 @@ def lemma_no_silent_clamp(model: Model, run: Run, mr) -> None:
                     ok = cu <= 0 or ("T", x) in facts and cu == 1 or any(f[0] == "LEN>=" and f[1] == x and f[2].lstrip("-").isdigit() and int(f[2]) >= cu for f in facts)
                 else:
                     ok = ("LEN>=", x, norm(up)) in facts
+                    if not ok and isinstance(up, ast.BinOp) and isinstance(up.op, ast.Add) and isinstance(up.left, ast.Name) and const_int(up.right) == 1:
+                        # x[i:i + 1] with 0 <= i < len(x)
+                        ok = ("LTLEN", up.left.id, x) in facts or ("IDX", up.left.id, x) in facts
                 run.ob("T1-no-silent-clamp", ok, {"function": fi.name, "slice": norm(n)})
                 if not ok:
                     run.fail(Finding("T1-no-silent-clamp", fq, norm(n), f"`{norm(n)}` is taken without a dominating check that `{x}` has at least `{norm(up)}` octets: "
